@@ -100,6 +100,14 @@ def ckdPub (hmac512 : Bytes → Bytes → Bytes) (Kpar : Pt) (cpar : Bytes) (i :
   let Ki := padd (point (parse256 IL)) Kpar
   if parse256 IL ≥ N ∨ Ki = inf then none else some (Ki, IR)
 
+/-- `CKDpriv` iterated along a path `i₁/i₂/…` ("m/i₁/i₂/…" of the BIP) -/
+def ckdPrivPath (hmac512 : Bytes → Bytes → Bytes) : Nat × Bytes → List Nat → Option (Nat × Bytes)
+  | kc, [] => some kc
+  | kc, i :: is =>
+    match ckdPriv hmac512 kc.1 kc.2 i with
+    | none => none
+    | some kc' => ckdPrivPath hmac512 kc' is
+
 /-- the neutered version `N((k, c)) → (K, c)` -/
 def neuter (k : Nat) (c : Bytes) : Pt × Bytes := (point k, c)
 
